@@ -41,7 +41,7 @@ def gen_behaviours(n, depth, seed, wd):
             out.append(json.loads(m.group(1).replace('\\"', '"')))
     if not out:
         raise Inconclusive("LockSim produced no behaviours")
-    return out[:n]
+    return stable_sample(out, n, seed)
 
 
 def scenario_for(h, sid):
